@@ -27,11 +27,20 @@ class ContentType:
             return False
         return self.__dict__ == other.__dict__
 
+    @staticmethod
+    def _quote(value):
+        # Inside a MIME quoted-string a backslash starts a quoted-pair, so a
+        # literal backslash (or quote) has to be escaped to survive parsing.
+        return str(value).replace("\\", "\\\\").replace('"', '\\"')
+
     def __repr__(self):
         if self.parameters:
             params = "; "
             params += "; ".join(
-                sorted(f'{k}="{v}"' for k, v in self.parameters.items())
+                sorted(
+                    '{}="{}"'.format(k, self._quote(v))
+                    for k, v in self.parameters.items()
+                )
             )
         else:
             params = ""
